@@ -19,6 +19,8 @@ package database
 import (
 	"sync"
 	"time"
+
+	"github.com/codenotary/immudb/embedded/simhook"
 )
 
 type instrumentedRWMutex struct {
@@ -41,6 +43,9 @@ func (imux *instrumentedRWMutex) Lock() {
 	imux.waitingCount++
 	imux.trwmutex.Unlock()
 
+	if simhook.Enabled {
+		simhook.BeforeLock("db.mutex-w", imux.simTryLock)
+	}
 	imux.rwmutex.Lock()
 
 	imux.trwmutex.Lock()
@@ -62,6 +67,9 @@ func (imux *instrumentedRWMutex) RLock() {
 	imux.waitingCount++
 	imux.trwmutex.Unlock()
 
+	if simhook.Enabled {
+		simhook.BeforeLock("db.mutex-r", imux.simTryRLock)
+	}
 	imux.rwmutex.RLock()
 
 	imux.trwmutex.Lock()
@@ -76,4 +84,23 @@ func (imux *instrumentedRWMutex) RUnlock() {
 	imux.lastReleaseAt = time.Now()
 
 	imux.trwmutex.Unlock()
+}
+
+// Lock probes used by the simulation hooks (build tag "verif"): a task is only
+// scheduled to acquire the mutex when it is free. Unused in regular builds.
+
+func (imux *instrumentedRWMutex) simTryLock() bool {
+	if imux.rwmutex.TryLock() {
+		imux.rwmutex.Unlock()
+		return true
+	}
+	return false
+}
+
+func (imux *instrumentedRWMutex) simTryRLock() bool {
+	if imux.rwmutex.TryRLock() {
+		imux.rwmutex.RUnlock()
+		return true
+	}
+	return false
 }
